@@ -100,7 +100,11 @@ static void norm_case(Ctx& c, uint64_t idx) {
     if (idx % 2 == 0) norm_run<ApiW>(c, s, gen, idx);
     if (idx % 3000 == 5) c.sample(gen, esc(s));
 }
-static Monitor monN = {"norm", "C08: normalisation vs RFC 6.2.2 model, all masks, owned/borrowed, idempotence, mask-required", "C08", norm_ncases, norm_case, nullptr};
+static void norm_fuzz(Ctx& c, const unsigned char* d, size_t n) {
+    if (n > 300) n = 300; Str s((const char*)d, n);
+    norm_run<ApiA>(c, s, "fuzz", 16 * (uint64_t)(n % 7 == 0)); if (n & 1) norm_run<ApiW>(c, s, "fuzz", 1);
+}
+static Monitor monN = {"norm", "C08: normalisation vs RFC 6.2.2 model, all masks, owned/borrowed, idempotence, mask-required", "C08", norm_ncases, norm_case, nullptr, norm_fuzz};
 VF_REGISTER(monN);
 
 // ---------------------------------------------------------------- C09
@@ -182,6 +186,10 @@ static void nr_case(Ctx& c, uint64_t idx) {
     if (idx % 4 == 0) nr_run<ApiW>(c, R, B, gen);
     if (idx % 5000 == 9) c.sample(gen, esc(R) + " against " + esc(B));
 }
-static Monitor monR = {"normres", "C09: normalisation commutes with resolution and preserves scheme/authority/path kind", "C09", nr_ncases, nr_case, nullptr};
+static void nr_fuzz(Ctx& c, const unsigned char* d, size_t n) {
+    if (n > 400) n = 400; Str B, R; fuzz_split2(d, n, &B, &R);
+    nr_run<ApiA>(c, R, B, "fuzz"); if (n & 1) nr_run<ApiW>(c, R, B, "fuzz");
+}
+static Monitor monR = {"normres", "C09: normalisation commutes with resolution and preserves scheme/authority/path kind", "C09", nr_ncases, nr_case, nullptr, nr_fuzz};
 VF_REGISTER(monR);
 }
